@@ -151,6 +151,14 @@ func (mr *msgReader) putFlateReader() {
 func (mr *msgReader) close() {
 	verifPoint(mr.c, "msgReader.close")
 	mr.c.readMu.forceLock()
+	if mr.reading {
+		// The connection is being closed from within Read (a close frame was
+		// received in the middle of a message). Read is still running inside
+		// these so they must not be handed to the pools.
+		mr.flateReader = nil
+		mr.dict = nil
+		mr.flateBufio = nil
+	}
 	mr.putFlateReader()
 	if mr.dict != nil {
 		mr.dict.close()
@@ -383,6 +391,8 @@ type msgReader struct {
 	fin           bool
 	payloadLength int64
 	maskKey       uint32
+	// reading is true while Read is executing. Protected by readMu.
+	reading bool
 
 	// util.ReaderFunc(mr.Read) to avoid continuous allocations.
 	readFunc util.ReaderFunc
@@ -414,9 +424,11 @@ func (mr *msgReader) Read(p []byte) (n int, err error) {
 	defer mr.c.readMu.unlock()
 	verifUse(mr.c, "msgReader.Read", true, mr.flateReader, mr.flateBufio, mr.dict)
 	defer verifUse(mr.c, "msgReader.Read", false, mr.flateReader, mr.flateBufio, mr.dict)
+	mr.reading = true
+	defer func() { mr.reading = false }()
 
 	n, err = mr.limitReader.Read(p)
-	if mr.flate && mr.flateContextTakeover() {
+	if mr.flate && mr.flateContextTakeover() && mr.dict != nil {
 		p = p[:n]
 		mr.dict.write(p)
 	}
